@@ -227,13 +227,27 @@ def run(ctx: Ctx) -> None:
     au = B.methods['_audit']
     loops = [n for n in walk_no_nested(au.node) if isinstance(n, ast.For) and unparse(n.iter) == 'self.formulas.values()']
     ok = False
-    if len(loops) == 1:
-        v = unparse(loops[0].target)
-        t = unparse(loops[0])
-        ok = f'{v}.check_draws()' in t and f'{v}.check_rv()' in t and f'{v}.audit(self.database)' in t and t.count('list_of_errors.append(err_msg)') == 2 and 'list_of_errors += err' in t
-        ok = ok and not any(isinstance(x, (ast.Break, ast.Continue)) for x in ast.walk(loops[0]))
+    bnd = find(au.node, """
+_ERRS = []
+___
+for _V in self.formulas.values():
+    _CD = _V.check_draws()
+    if _CD:
+        ___
+        _ERRS.append(__M1)
+    _CR = _V.check_rv()
+    if _CR:
+        ___
+        _ERRS.append(__M2)
+    _E, _W = _V.audit(self.database)
+    _ERRS += _E
+    ___
+""")
+    if len(loops) == 1 and bnd is not None:
+        errs = bnd['_ERRS']
+        ok = not any(isinstance(x, (ast.Break, ast.Continue)) for x in ast.walk(loops[0]))
         ca = cfg_of(au.node)
-        rz = [n for n in walk_no_nested(au.node) if isinstance(n, ast.If) and unparse(n.test) == 'list_of_errors' and any(isinstance(x, ast.Raise) and 'BiogemeError' in unparse(x) for x in n.body)]
+        rz = [n for n in walk_no_nested(au.node) if isinstance(n, ast.If) and unparse(n.test) == errs and any(isinstance(x, ast.Raise) and 'BiogemeError' in unparse(x) for x in n.body)]
         ok = ok and len(rz) == 1 and ca.must_pass(ca.node_of(loops[0]), {ca.node_of(rz[0])})
     ctx.add('C12.R3', 'BIOGEME._audit', ok, au, 'every formula is tested for misplaced draws and random variables and audited; any finding raises BiogemeError' if ok else '_audit no longer covers every formula or no longer raises', 'audit')
     sim = B.methods['simulate']
@@ -308,7 +322,13 @@ else:
                             if h.module.name.startswith('biogeme.models') and h not in seen:
                                 seen.add(h)
                                 todo.append(h)
-                    if isinstance(n, ast.If) and unparse(n.test) == 'not ok' and any(isinstance(x, ast.Raise) and 'BiogemeError' in unparse(x) for x in n.body):
+                for chk in ('check_partition', 'check_validity'):
+                    if has(g.node, f"""
+_OK, _MSG = nests.{chk}()
+if not _OK:
+    ___
+    raise BiogemeError(__M)
+"""):
                         raising = True
             ctx.add('C12.R5', f'{mod}.{f.name}', validates and raising, f, f'{f.name} validates the nests and raises BiogemeError on failure' if validates and raising else f'{f.name} builds the model without validating the nests', 'validate')
     nm = prog.module('nests')
@@ -321,16 +341,30 @@ else:
                     inside = [lp for lp in walk_no_nested(f.node) if isinstance(lp, (ast.For, ast.While)) and lp.lineno < n.lineno <= lp.end_lineno]
                     ctx.add('C12.R5', f'{c.name}.{f.name}:verdict', not inside, (f.file, n.lineno), 'the positive verdict is issued after all loops have finished' if not inside else 'a positive verdict is returned from inside a loop: later elements are never examined', 'verdict')
     cp = prog.func('nests', 'NestsForNestedLogit.check_partition')
-    txt = unparse(cp.node)
-    ok = 'valid_union, msg_union = self.check_union()' in txt and 'valid_intersection, msg_intersection = self.check_intersection()' in txt and 'return (valid_union and valid_intersection' in txt
+    ok = body_is(cp.body, """
+_VU, _MU = self.check_union()
+_VI, _MI = self.check_intersection()
+return (_VU and _VI, __MSG)
+""") is not None
     ctx.add('C12.R5', 'NestsForNestedLogit.check_partition', ok, cp, 'a partition needs both the union and the intersection test' if ok else 'check_partition no longer combines both tests', 'partition')
     ci_ = prog.func('nests', 'NestsForNestedLogit.check_intersection')
-    txt = unparse(ci_.node)
-    ok = 'for i, nest in enumerate(self.tuple_of_nests):' in txt and 'for j, other_nest in enumerate(self.tuple_of_nests):' in txt and 'nest.intersection(other_nest)' in txt and 'if i != j:' in txt
+    ok = has(ci_.node, """
+for _I, _N in enumerate(self.tuple_of_nests):
+    ___
+    for _J, _O in enumerate(self.tuple_of_nests):
+        if _I != _J:
+            _X = _N.intersection(_O)
+            if _X:
+                ___
+                return (False, __MSG)
+""")
     ctx.add('C12.R5', 'NestsForNestedLogit.check_intersection', ok, ci_, 'every ordered pair of distinct nests is intersected' if ok else 'check_intersection no longer compares all pairs', 'pairs')
     ni = prog.func('nests', 'Nests.__init__')
-    txt = unparse(ni.node)
-    ok = 'invalid_elements = self.mev_alternatives - set(self.choice_set)' in txt and re.search(r'if invalid_elements:\n\s+raise BiogemeError', txt) is not None
+    ok = has(ni.node, """
+_INV = self.mev_alternatives - set(self.choice_set)
+if _INV:
+    raise BiogemeError(__MSG)
+""")
     ctx.add('C12.R5', 'Nests.__init__', ok, ni, 'alternatives outside the choice set are refused' if ok else 'Nests.__init__ no longer refuses foreign alternatives', 'foreign')
     ctx.floor('C12.R5', 14)
     # ---- R6
@@ -358,13 +392,42 @@ else:
         ok = len(rz) == 1 and cd.must_pass(0, {cd.node_of(au2[0])}) and cd.dominates(cd.node_of(empty[0]), cd.node_of(au2[0]))
     ctx.add('C12.R7', 'Database.__init__', ok, di, 'empty data refused, then the audit runs and any finding raises BiogemeError' if ok else 'the data gate of Database.__init__ changed', 'gate')
     da_ = D.methods['_audit']
-    txt = unparse(da_.node)
-    ok = 'if not np.issubdtype(dtype, np.number):' in txt and 'if self.data.isnull().values.any():' in txt and txt.count('list_of_errors.append(the_error)') == 2 and 'for col, dtype in self.data.dtypes.items():' in txt
+    ok = body_is(da_.body, """
+_ERRS = []
+_WARNS = []
+for _COL, _DT in self.data.dtypes.items():
+    if not np.issubdtype(_DT, np.number):
+        ___
+        _ERRS.append(__M1)
+if self.data.isnull().values.any():
+    ___
+    _ERRS.append(__M2)
+return (_ERRS, _WARNS)
+""") is not None
     ctx.add('C12.R7', 'Database._audit', ok, da_, 'every column must be numeric and no value may be NaN' if ok else 'the data audit no longer tests dtype and NaN for all columns', 'audit')
     # ---- LogLogit consistency tests
     ll = prog.find_class('LogLogit', 'expressions').methods['audit']
-    txt = unparse(ll.node)
-    ok = 'if self.util.keys() != self.av.keys():' in txt and 'list_of_errors.append(the_error)' in txt and 'correct_choices = np.isin(choices, list_of_alternatives)' in txt
+    ok = has(ll.node, """
+_ERRS = []
+___
+if self.util.keys() != self.av.keys():
+    ___
+    _ERRS.append(__M1)
+else:
+    ___
+_ALTS = list(self.util)
+if database is None:
+    _CH = np.array([self.choice.get_value_c()])
+else:
+    _CH = database.values_from_database(self.choice)
+_OK = np.isin(_CH, _ALTS)
+_BAD = np.argwhere(~_OK)
+if _BAD.any():
+    ___
+    _ERRS.append(__M2)
+___
+return (_ERRS, _WARNS)
+""")
     ctx.add('C12.R1', 'LogLogit.audit:consistency', ok, ll, 'utilities/availabilities key mismatch and invalid choices are errors' if ok else 'consistency tests of LogLogit.audit changed', 'consistency')
     # ---- R8
     prep = [n for n in walk_no_nested(gv.node) if isinstance(n, ast.Expr) and unparse(n.value).startswith('self.prepare(')]
